@@ -219,6 +219,10 @@ def main(argv=None):
           "solver=%.1fs wall=%.1fs" % (pid, args.tier, len(results), tot["paths"], tot["decisions"],
                                        tot["obligations"], tot["discharged"], tot["validated"],
                                        tot["solver_s"], wall))
+    if os.environ.get("SYMX_TIMING"):
+        for r in sorted(results, key=lambda r: -r.get("wall_s", 0))[:12]:
+            print("  slow job %.1fs paths=%d %s %s" % (r.get("wall_s", 0), r.get("paths", 0), r["job"]["func"],
+                                                      json.dumps(r["job"]["params"])))
     for l in lines:
         print(l)
     for v in unrepro[:10]:
